@@ -43,6 +43,10 @@ class Enc:
         elif self.tag == 'gen':
             if self.api in commands.MESSAGE_TYPE_OF_WRITER:
                 self.kind = 'writer'
+        if self.kind is None and self.tag in ('req', 'resp'):
+            # a public encoder the reference tables do not know (new API function): the properties that quantify over
+            # "every encoder" (PEC, framing, exact writes, no panic) still apply; the per-command body layouts cannot
+            self.kind = 'generic'
         self._leaves = None
 
     def leaves(self):
@@ -258,7 +262,7 @@ def expected_items(enc, lf, length):
         return items
     if enc.kind == 'response':
         items = header_items(enc, length, msg_type=K(8, 0x00))
-        items += [('cell', K(8, 0x00)), ('cell', K(8, enc.spec['code'])), ('cell', enc.enum_u8('completion_code'))]
+        items += [('mask', 0xE0, 0x00), ('cell', K(8, enc.spec['code'])), ('cell', enc.enum_u8('completion_code'))]
         for f in enc.spec['fields']:
             items += field_items(enc, lf, f)
         return items
@@ -307,6 +311,17 @@ def compare(know, ordered, items):
             off += 1
             continue
         a = ordered[ai]
+        if it[0] == 'mask':
+            # only the masked bits are constrained (Rq, D, reserved of a response's control header)
+            ok_m = False
+            if a[0] == 'cell':
+                bits = bits_of(simp(know, a[2]))
+                ok_m = all((not (it[1] >> k) & 1) or bits[k] == ((it[2] >> k) & 1) for k in range(8))
+            if not ok_m:
+                out.append((show_term(simp(know, a[1])), show_item(know, it), show_atom_w(know, a)))
+            ai += 1
+            off += 1
+            continue
         if it[0] == 'cell':
             if a[0] != 'cell':
                 out.append((show_term(simp(know, a[1])), show_item(know, it), 'a copied region'))
@@ -336,6 +351,8 @@ def compare(know, ordered, items):
 
 
 def show_item(know, it):
+    if it[0] == 'mask':
+        return 'bits %02X = %02X' % (it[1], it[2])
     if it[0] == 'cell':
         return show_term(simp(know, it[1]))
     return 'copy of %s[%s..%s]' % (it[1][0], show_term(simp(know, it[1][1])), show_term(simp(know, it[1][2])))
